@@ -150,6 +150,10 @@ impl DBM {
         net_addr: &str,
         receipt: &RegistrationReceipt,
     ) -> Result<(), Error> {
+        #[cfg(feature = "verif")]
+        teos_common::verif::crash_point("store_tower_record:pre");
+        #[cfg(feature = "verif")]
+        let _post = teos_common::verif::CrashPointOnDrop("store_tower_record:post");
         let tx = self.get_mut_connection().transaction().unwrap();
         tx.execute(
             "INSERT INTO towers (tower_id, net_addr, available_slots) 
@@ -306,6 +310,10 @@ impl DBM {
         available_slots: u32,
         receipt: &AppointmentReceipt,
     ) -> Result<(), SqliteError> {
+        #[cfg(feature = "verif")]
+        teos_common::verif::crash_point("store_appointment_receipt:pre");
+        #[cfg(feature = "verif")]
+        let _post = teos_common::verif::CrashPointOnDrop("store_appointment_receipt:post");
         let tx = self.get_mut_connection().transaction().unwrap();
         tx.execute(
             "INSERT INTO appointment_receipts (locator, tower_id, start_block, user_signature, tower_signature) 
@@ -446,6 +454,10 @@ impl DBM {
         tower_id: TowerId,
         appointment: &Appointment,
     ) -> Result<(), SqliteError> {
+        #[cfg(feature = "verif")]
+        teos_common::verif::crash_point("store_pending_appointment:pre");
+        #[cfg(feature = "verif")]
+        let _post = teos_common::verif::CrashPointOnDrop("store_pending_appointment:post");
         let tx = self.get_mut_connection().transaction().unwrap();
 
         // If the appointment already exists (because it was added by another tower as either pending or invalid) we simply
@@ -490,6 +502,10 @@ impl DBM {
             pending + invalid
         };
 
+        #[cfg(feature = "verif")]
+        teos_common::verif::crash_point("delete_pending_appointment:pre");
+        #[cfg(feature = "verif")]
+        let _post = teos_common::verif::CrashPointOnDrop("delete_pending_appointment:post");
         let tx = self.get_mut_connection().transaction().unwrap();
         if count == 1 {
             tx.execute(
@@ -515,6 +531,10 @@ impl DBM {
         tower_id: TowerId,
         appointment: &Appointment,
     ) -> Result<(), SqliteError> {
+        #[cfg(feature = "verif")]
+        teos_common::verif::crash_point("store_invalid_appointment:pre");
+        #[cfg(feature = "verif")]
+        let _post = teos_common::verif::CrashPointOnDrop("store_invalid_appointment:post");
         let tx = self.get_mut_connection().transaction().unwrap();
 
         // If the appointment already exists (because it was added by another tower as either pending or invalid) we simply
@@ -570,6 +590,10 @@ impl DBM {
         tower_id: TowerId,
         proof: &MisbehaviorProof,
     ) -> Result<(), SqliteError> {
+        #[cfg(feature = "verif")]
+        teos_common::verif::crash_point("store_misbehaving_proof:pre");
+        #[cfg(feature = "verif")]
+        let _post = teos_common::verif::CrashPointOnDrop("store_misbehaving_proof:post");
         let tx = self.get_mut_connection().transaction().unwrap();
         tx.execute(
             "INSERT INTO appointment_receipts (tower_id, locator, start_block, user_signature, tower_signature) 
